@@ -84,10 +84,10 @@ class C08(VariantCheck):
             f.write("CONSTANTS Eps = 1\n MaxSegs = 3\n MaxRank = 8\n Slack = 1\n MinGap = 1\nSPECIFICATION Spec\nINVARIANTS NoUpwardShift\nCHECK_DEADLOCK FALSE\n")
         ms.append(ModelRun("CompIntercepts.tla", cfg, "sensitivity: segments that start one rank apart (chunk seam) get an intercept moved up (F16)", workers=1, timeout=300,
                            expect="violation:*", constants={"Eps": 1, "MinGap": 1}))
-        def comp_cfg(name, u, n, eps, chunks, inv, epsrec=0):
+        def comp_cfg(name, u, n, eps, chunks, inv, epsrec=0, minlen=1, maxstep=0):
             c = os.path.join(work, name + ".cfg")
             with open(c, "w") as f:
-                f.write("CONSTANTS U = %d\n N = %d\n Eps = %d\n EpsRec = %d\n NChunks = %d\n Sentinel = %d\nSPECIFICATION Spec\nINVARIANTS %s\nCHECK_DEADLOCK FALSE\n" % (u, n, eps, epsrec, chunks, u, inv))
+                f.write("CONSTANTS U = %d\n N = %d\n Eps = %d\n EpsRec = %d\n NChunks = %d\n Sentinel = %d\n MinBuildLen = %d\n MaxStep = %d\nSPECIFICATION Spec\nINVARIANTS %s\nCHECK_DEADLOCK FALSE\n" % (u, n, eps, epsrec, chunks, u, minlen, maxstep or u, inv))
             return c
         ALLC = "Shape C08Present C08LowerBound BuilderOK ClampOK NoUpwardShift"
         for u, n, eps in ((10, 7, 1), (10, 8, 2)) + (((12, 8, 1), (12, 9, 2)) if tier == "thorough" else ()):
@@ -100,6 +100,13 @@ class C08(VariantCheck):
                                workers=4, timeout=2400, heap="8g", constants={"U": u, "N": n, "Eps": eps, "EpsRec": er}))
         ms.append(ModelRun("Compressed.tla", comp_cfg("Compressed_wlevel", 10, 7, 1, 1, "WitnessOneStoredLevel", 1), "witness: a recursive index with a stored level below the root", workers=2, timeout=600,
                            expect="violation:*", constants={"U": 10, "N": 7, "EpsRec": 1}))
+        nsim = 500 if tier == "quick" else 6000
+        ms.append(ModelRun("Compressed.tla", comp_cfg("Compressed_sim", 30, 30, 1, 1, ALLC + " InBounds", 1, minlen=24, maxstep=2),
+                           "simulation: arrays of 24..30 keys (gaps 0..2), recursive index with two stored levels below the root", workers=4, timeout=1800,
+                           simulate="num=%d,depth=40" % nsim, exhaustive=False, constants={"U": 30, "N": 30, "Eps": 1, "EpsRec": 1, "traces": 4 * nsim}))
+        ms.append(ModelRun("Compressed.tla", comp_cfg("Compressed_w2", 30, 30, 1, 1, "WitnessTwoStoredLevels", 1, minlen=24, maxstep=2),
+                           "witness (simulation): two stored levels below the root", workers=2, timeout=600, simulate="num=3000,depth=40",
+                           expect="violation:*", exhaustive=False, constants={"U": 30, "N": 30}))
         ms.append(ModelRun("Compressed.tla", comp_cfg("Compressed_seam", 12, 8, 1, 3, "Shape C08Present C08LowerBound"),
                            "sensitivity: a first level built in 3 chunks violates the search contract (F16 with exact geometry)", workers=4, timeout=900,
                            expect="violation:*", constants={"U": 12, "N": 8, "Eps": 1, "NChunks": 3}))
